@@ -1,10 +1,19 @@
 (* Props/C16.v — queries are isolated.
-   Partial: the theorems are about a model in which each query's state (everything reachable from its RBQLContext, its
-   writer chain, join map and the closures created per run) is disjoint from the other's and the only shared datum is
-   the read-only global debug_mode.  That this partition is the code's is what the correspondence run tests (all
-   results of interleaved / consecutive runs = the solo results of the engine model); OS-thread preemption inside a
-   step is not explored. *)
-From RBQL Require Import Base Isolation Front_Proofs.
+   Two layers.
+   (1) C16_interleaving / C16_history: the generic non-interference argument over two abstract step machines whose states are
+       disjoint BY ASSUMPTION and whose only shared datum is a read-only global.
+   (2) C16_ir_*: the same over the IR of Shared.v, where the partition is a CHECKED fact: a program is a table of function
+       bodies whose statements read shared cells, update the query's private state through arbitrary functions and write a
+       shared cell only through SWrite / SMutate naming the cell; `isolated p e` (the transitive write set of entry point e is
+       empty, checked as a certificate) implies non-interference for every schedule, every history and every expression
+       semantics.  The IR TERM of the Python implementation (prog_py: every function, method, lambda of the five modules a
+       query executes plus the generated main loops) is regenerated from the source on every run by
+       harness/translate_shared.py, and the run compiles  gen_shared_isolated : forallb (isolated prog_py) entries_py = true
+       and the instantiated corollaries (build/gen/shared_<pid>/SharedFacts.v).
+   What stays trusted: the translator's effect rules (header of translate_shared.py; cross-checked on every run by snapshots
+   of every shared cell around the executed queries), CPython's runtime and stdlib (ASSUMED list there), and that steps are
+   atomic (true OS-thread preemption inside a statement is not modelled). *)
+From RBQL Require Import Base Isolation Front_Proofs Shared Shared_Proofs.
 
 (* every interleaving of the steps of two queries leaves each query in the state of its solo run *)
 Theorem C16_interleaving : forall (G S1 S2 : Type) (step1 : G -> S1 -> S1) (step2 : G -> S2 -> S2) sched g s,
@@ -23,3 +32,78 @@ Example C16_nonvacuous :
   run_interleaved unit nat nat (fun _ => S) (fun _ n => n + 2) [true; false; false; true; true] tt (0, 0) = (3, 4).
 Proof. reflexivity. Qed.
 Print Assumptions C16_nonvacuous.
+
+(* ---- the IR layer (Shared.v): every small step is a scheduling point.
+   `off` = shared flags assumed false in the store (debug_mode): a block `if flag: ..` guarded by one of them is dead; the
+   analyser checks that nothing reachable outside such blocks writes any cell, so the flags stay false.  off = [] is the
+   unconditional statement. *)
+
+(* two entry points whose transitive shared write sets are empty: under EVERY schedule the shared store is unchanged and each
+   query (private state, outputs, continuation, error flag) is exactly where its solo run from the same store is after as many
+   steps as the schedule gave it - for every expression semantics rd / loc / tst / wr / mu / out / truthy *)
+Theorem C16_ir_interleaving : forall (P V Y : Type) (rd : N -> V -> P -> option P) (loc : N -> P -> option P) (tst : N -> P -> bool)
+    (wr : N -> P -> V) (mu : N -> V -> P -> V) (out : N -> P -> Y) (truthy : V -> bool) (pr : prog) (off : list cell) (e1 e2 : fid),
+  isolated off pr e1 = true -> isolated off pr e2 = true ->
+  forall (sched : list bool) (g : cell -> V) (p1 p2 : P),
+  (forall c, mem c off = true -> truthy (g c) = false) ->
+  run2 P V Y rd loc tst wr mu out truthy pr sched g (start P Y e1 p1) (start P Y e2 p2) =
+  (g, snd (solo P V Y rd loc tst wr mu out truthy pr (count_true sched) g (start P Y e1 p1)),
+      snd (solo P V Y rd loc tst wr mu out truthy pr (count_false sched) g (start P Y e2 p2))).
+Proof. exact ir_interleaving. Qed.
+Print Assumptions C16_ir_interleaving.
+
+(* a history of queries (each given any number of steps; a query may stop with an error at any SRead / SLocal): the store at
+   the end is the store at the beginning and every query's result is its solo result in that store *)
+Theorem C16_ir_history : forall (P V Y : Type) (rd : N -> V -> P -> option P) (loc : N -> P -> option P) (tst : N -> P -> bool)
+    (wr : N -> P -> V) (mu : N -> V -> P -> V) (out : N -> P -> Y) (truthy : V -> bool) (pr : prog) (off : list cell)
+    (qs : list (fid * P * nat)),
+  (forall q, In q qs -> isolated off pr (fst (fst q)) = true) ->
+  forall g : cell -> V, (forall c, mem c off = true -> truthy (g c) = false) ->
+  run_hist P V Y rd loc tst wr mu out truthy pr g qs = (g, map (solo_result P V Y rd loc tst wr mu out truthy pr g) qs).
+Proof. exact ir_history. Qed.
+Print Assumptions C16_ir_history.
+
+(* the solo run itself leaves the store as it found it *)
+Theorem C16_ir_solo_store : forall (P V Y : Type) (rd : N -> V -> P -> option P) (loc : N -> P -> option P) (tst : N -> P -> bool)
+    (wr : N -> P -> V) (mu : N -> V -> P -> V) (out : N -> P -> Y) (truthy : V -> bool) (pr : prog) (off : list cell) (e : fid),
+  isolated off pr e = true -> forall n g p, (forall c, mem c off = true -> truthy (g c) = false) ->
+  fst (solo P V Y rd loc tst wr mu out truthy pr n g (start P Y e p)) = g.
+Proof. exact ir_solo_store. Qed.
+Print Assumptions C16_ir_solo_store.
+
+(* non-vacuity: a program with reads, a loop, a call and a failing statement is accepted ... *)
+Example C16_ir_nonvacuous : isolated [] ex_clean 1%N = true /\ isolated [] ex_clean 2%N = true /\
+  read_set [] ex_clean 1%N = [0%N; 1%N] /\ write_set [] ex_clean 1%N = [].
+Proof. exact ex_clean_isolated. Qed.
+Print Assumptions C16_ir_nonvacuous.
+
+(* ... a history whose first query fails half-way leaves the second one its solo result ... *)
+Example C16_ir_history_with_error :
+  let qs := [(1%N, 101%N, 40%nat); (1%N, 0%N, 200%nat)] in
+  map (c_err N N) (snd (run_hist N N N ex_rd ex_loc ex_tst ex_wr ex_mu ex_out ex_truthy ex_clean ex_store qs)) = [true; false] /\
+  snd (run_hist N N N ex_rd ex_loc ex_tst ex_wr ex_mu ex_out ex_truthy ex_clean ex_store qs)
+    = map (solo_result N N N ex_rd ex_loc ex_tst ex_wr ex_mu ex_out ex_truthy ex_clean ex_store) qs /\
+  map (fun c => length (c_outs N N c)) (snd (run_hist N N N ex_rd ex_loc ex_tst ex_wr ex_mu ex_out ex_truthy ex_clean ex_store qs)) = [0%nat; 4%nat].
+Proof. exact ex_history_with_error. Qed.
+Print Assumptions C16_ir_history_with_error.
+
+(* ... the flag assumption is satisfiable and needed: a program whose only writes sit under `if flag 7:` is rejected without
+   the assumption, accepted with it, ex_store has the flag off, and with the flag ON the store does change ... *)
+Example C16_ir_guard_nonvacuous :
+  isolated [] ex_guarded 1%N = false /\ isolated [7%N] ex_guarded 1%N = true /\ write_set [7%N] ex_guarded 1%N = [] /\
+  (forall c, mem c [7%N] = true -> ex_truthy (ex_store c) = false) /\
+  fst (solo N N N ex_rd ex_loc ex_tst ex_wr ex_mu ex_out ex_truthy ex_guarded 10%nat (fun c => if N.eqb c 7%N then 1%N else ex_store c) (start N N 1%N 0%N)) 0%N
+    <> ex_store 0%N.
+Proof. exact ex_guarded_facts. Qed.
+Print Assumptions C16_ir_guard_nonvacuous.
+
+(* ... and the verdict `isolated = false` is meaningful: a two-query program with ONE shared write is rejected, and under some
+   schedule the reader's output differs from its solo output *)
+Theorem C16_ir_refutation :
+  isolated [] ex_leaky 2%N = false /\ write_set [] ex_leaky 2%N = [0%N] /\
+  exists sched,
+    c_outs N N (snd (run2 N N N ex_rd ex_loc ex_tst ex_wr ex_mu ex_out ex_truthy ex_leaky sched ex_store (start N N 1%N 0%N) (start N N 2%N 0%N)))
+    <> c_outs N N (snd (solo N N N ex_rd ex_loc ex_tst ex_wr ex_mu ex_out ex_truthy ex_leaky (count_true sched) ex_store (start N N 1%N 0%N)))
+    /\ fst (fst (run2 N N N ex_rd ex_loc ex_tst ex_wr ex_mu ex_out ex_truthy ex_leaky sched ex_store (start N N 1%N 0%N) (start N N 2%N 0%N))) 0%N <> ex_store 0%N.
+Proof. exact ex_leaky_refuted. Qed.
+Print Assumptions C16_ir_refutation.
